@@ -29,6 +29,7 @@ type Session struct {
 	usedContracts map[string]bool
 	noSafe        bool
 	noFrame       bool
+	probeFalse    bool
 	repo          string
 	verifDir      string
 	stale         []string
